@@ -6,7 +6,8 @@ Vecs(n, Vs) == {v \in [1..n -> Vs] : \A k \in 1..n : v[k] \in {"R", "F"} => \A q
 AllA(n) == [k \in 1..n |-> "A"]
 SeqsBetween(S, lo, hi) == UNION {[1..n -> S] : n \in lo..hi}
 NONE2 == [input |-> TRUE, dialog |-> TRUE, retrieval |-> TRUE, output |-> TRUE, set |-> FALSE]
-TurnRec(iv, ov) == [kind |-> "llm", inv |-> iv, outv |-> ov, opts |-> NONE2, sup |-> FALSE]
+TurnRecR(iv, ov, rp) == [kind |-> "llm", inv |-> iv, outv |-> ov, opts |-> NONE2, sup |-> FALSE, rep |-> rp]
+TurnRec(iv, ov) == TurnRecR(iv, ov, FALSE)
 CfgRec(ni, no, sh) == [ver |-> 2, nin |-> ni, nout |-> no, dialog |-> TRUE, exc |-> FALSE, shape |-> sh]
 NF(v) == Cardinality({k \in DOMAIN v : v[k] = "F"})
 ScriptsFor(c, TurnSet, lo, hi) == {[cfg |-> c, turns |-> ts] : ts \in SeqsBetween(TurnSet, lo, hi)}
@@ -15,8 +16,11 @@ Scripts ==
          UNION {ScriptsFor(CfgRec(ni, no, "check"), {TurnRec(iv, AllA(no)) : iv \in Vecs(ni, {"A", "R"})}, 1, MaxTurns)
                 : ni \in 0..MaxIn, no \in {0, 1}}
     [] Family = "c02v2" ->
-         UNION {ScriptsFor(CfgRec(ni, no, "check"), {TurnRec(AllA(ni), ov) : ov \in Vecs(no, {"A", "R"})}, 2, MaxTurns)
+         UNION {ScriptsFor(CfgRec(ni, no, "check"), {TurnRecR(AllA(ni), ov, rp) : ov \in Vecs(no, {"A", "R"}), rp \in BOOLEAN}, 2, MaxTurns)
                 : ni \in {0, 1}, no \in 1..MaxOut}
+         \cup  \* output rails that fail synchronously (no awaited action) and silently
+         UNION {ScriptsFor(CfgRec(0, no, "sync"), {TurnRecR(<<>>, ov, FALSE) : ov \in Vecs(no, {"A", "R"})}, 2, MaxTurns)
+                : no \in 1..MaxOut}
     [] Family = "c03v2" ->
          UNION {{s \in ScriptsFor(CfgRec(ni, no, sh),
                      {TurnRec(iv, ov) : iv \in Vecs(ni, {"A", "R", "F"}), ov \in Vecs(no, {"A", "R", "F"})}, 2, MaxTurns) :
